@@ -116,6 +116,7 @@ Extreme == {"0", "-1", "1//0", "1.5", "'a'", "()", "2**70", "None", "(", ")", "[
             "'[a-'", "+", "@[UNDEF]@", "@[EXACTLY_ACT]@", "\"", "'", "<<EOF", ":>", "-rel-tmp", "-rel", "!", "&&",
             "||", "=", ":", "{", "}", "-full", "\\u00e9", "[setup]", "[assert]", "including", "`",
             "\\f", "\\v", "\\u00a0", "\\u2028", "LONG",        \* white space of other kinds; a name of 300 characters
+            "NBSP-HDR", "FF-HDR", "EMSP-HDR",               \* a phase header directly after white space that is no blank / tab
             "\"\"", "''"}                                    \* the empty string, soft and hard quoted
 WhiteSpaces == {"\\f", "\\u00a0"}
 
